@@ -1,5 +1,5 @@
 (* C09 — cordoned nodes are never touched and never counted.  Theorems only. *)
-From Esc Require Import Examples proofs.ScanTheorems.
+From Esc Require Import Examples proofs.ScanTheorems proofs.ScanRun proofs.ScanRunTheorems.
 
 (* outside dry mode every node update, node delete and instance termination is about a node of the view that is
    not cordoned — whatever taints, annotations or age the cordoned nodes have *)
@@ -34,3 +34,9 @@ Print Assumptions c09_not_counted.
 Example c09_ex : removal_targets (r_calls (ex_scan ex_opts gstate0 4800))
                = [(Some [105; 51], None); (None, Some 203); (Some [105; 50], None); (None, Some 202)].
 Proof. vm_compute. reflexivity. Qed.
+
+(* over a whole RunOnce: the checker evaluated by the correspondence holds of every group journal the model produces
+   (group names and cloud group names pairwise distinct) *)
+Theorem c09_run_once : forall s, wf_groups s -> for_groups check_C09_group s (run_journals s) = true.
+Proof. exact run_passes_C09. Qed.
+Print Assumptions c09_run_once.
